@@ -258,6 +258,7 @@ def eval_opt(case: dict) -> dict:
 
         for v in viol:
             v["kf"] = kf.classify(ctx, case, v)
+        viol.sort(key=lambda v: v["kf"] is not None)  # unlisted first: the reported list is truncated
     verdict = "held"
     if viol:
         verdict = "violated"
